@@ -1,4 +1,4 @@
-import PrimaiteModel.Model.Health
+import PrimaiteModel.Model.HealthDyn
 open Primaite Primaite.Health
 
 namespace DrvC14
@@ -50,9 +50,24 @@ def dump (n : Node) : String :=
   s!"P={showPower n.power},{n.startCd},{n.shutCd},{showBool n.resetting},{n.scanCd} S=" ++
     " ".intercalate (n.sws.map showSw) ++ " F=" ++ " ".intercalate (n.folders.map showFolder)
 
-def init : Node :=
-  { power := .on, startDur := 3, startCd := 0, shutDur := 3, shutCd := 0, resetting := false, scanDur := 10, scanCd := 0,
-    sws := [], folders := [] }
+def init : DNode :=
+  { n := { power := .on, startDur := 3, startCd := 0, shutDur := 3, shutCd := 0, resetting := false, scanDur := 10, scanCd := 0,
+           sws := [], folders := [] }, defScan := none, defRestore := none }
+
+def parseSpec (name k fd ad h : String) : Option SwSpec := do
+  some { name := name, isApp := (← parseKind k), fixDur := (← fd.toInt?), auxDur := (← ad.toInt?), h0 := (← parseSwH h) }
+
+def parseDOp : List String → Option DOp
+  | ["appinstallreq", name, fd, ad, known] => do
+    some (.appInstallReq (← parseSpec name "app" fd ad "GOOD") (← parseBool known))
+  | ["appuninstallreq", name] => some (.appUninstallReq name)
+  | ["swinstallapi", name, k, fd, ad, h] => do some (.swInstallApi (← parseSpec name k fd ad h))
+  | ["swuninstallapi", name] => some (.swUninstallApi name)
+  | ["fscreatefolder", F] => some (.fsCreateFolder F)
+  | ["fscreatefile", F, f, force] => do some (.fsCreateFile F f (← parseBool force))
+  | ["fscopyfile", sF, f, dF] => some (.fsCopyFile sF f dF)
+  | ["dbreplace", F, f, sF] => some (.dbReplace F f sF)
+  | _ => none
 
 def parseOp : List String → Option Op
   | ["tick"] => some .tick
@@ -74,46 +89,65 @@ def parseOp : List String → Option Op
   | ["fileset", F, f, h] => do some (.fileSet F f (← parseFsH h))
   | _ => none
 
-def step (n : Node) (ws : List String) : Node × String :=
+def setup (n : Node) (ws : List String) : Option (Node × String) :=
   match ws with
   | ["node", p, sd, sc, hd, hc, rs, nd, nc] =>
     match parsePower p, sd.toInt?, sc.toInt?, hd.toInt?, hc.toInt?, parseBool rs, nd.toInt?, nc.toInt? with
     | some p, some sd, some sc, some hd, some hc, some rs, some nd, some nc =>
-      ({ n with power := p, startDur := sd, startCd := sc, shutDur := hd, shutCd := hc, resetting := rs, scanDur := nd,
-                scanCd := nc }, "ok")
-    | _, _, _, _, _, _, _, _ => (n, "bad-op")
+      let n' : Node := { n with power := p, startDur := sd, startCd := sc, shutDur := hd, shutCd := hc, resetting := rs,
+                                scanDur := nd, scanCd := nc }
+      some (n', "ok")
+    | _, _, _, _, _, _, _, _ => some (n, "bad-op")
   | ["addsw", name, k, op, a, v, fd, fc, ad, ac] =>
     match parseKind k, parseOpSt op, parseSwH a, parseSwH v, fd.toInt?, parseOpt String.toInt? fc, ad.toInt?,
           parseOpt String.toInt? ac with
     | some k, some op, some a, some v, some fd, some fc, some ad, some ac =>
-      if n.sws.any (·.name = name) then (n, "dup") else
-      ({ n with sws := n.sws ++ [{ name := name, isApp := k, op := op, actual := a, visible := v, fixDur := fd, fixCd := fc,
-                                   auxDur := ad, auxCd := ac }] }, "ok")
-    | _, _, _, _, _, _, _, _ => (n, "bad-op")
+      if n.sws.any (·.name = name) then some (n, "dup") else
+      let x : Sw := { name := name, isApp := k, op := op, actual := a, visible := v, fixDur := fd, fixCd := fc,
+                      auxDur := ad, auxCd := ac }
+      some ({ n with sws := n.sws ++ [x] }, "ok")
+    | _, _, _, _, _, _, _, _ => some (n, "bad-op")
   | ["addfolder", name, d, a, v, sd, sc, rd, rc] =>
     match parseBool d, parseFsH a, parseFsH v, sd.toInt?, sc.toInt?, rd.toInt?, rc.toInt? with
     | some d, some a, some v, some sd, some sc, some rd, some rc =>
-      if n.folders.any (·.name = name) then (n, "dup") else
-      ({ n with folders := n.folders ++ [{ name := name, deleted := d, actual := a, visible := v, scanDur := sd, scanCd := sc,
-                                           restoreDur := rd, restoreCd := rc, files := [] }] }, "ok")
-    | _, _, _, _, _, _, _ => (n, "bad-op")
+      if n.folders.any (·.name = name) then some (n, "dup") else
+      let G : Folder := { name := name, deleted := d, actual := a, visible := v, scanDur := sd, scanCd := sc,
+                          restoreDur := rd, restoreCd := rc, files := [] }
+      some ({ n with folders := n.folders ++ [G] }, "ok")
+    | _, _, _, _, _, _, _ => some (n, "bad-op")
   | ["addfile", F, name, a, v, d] =>
     match parseFsH a, parseFsH v, parseBool d with
     | some a, some v, some d =>
       match n.findFolder F with
-      | none => (n, "bad-op")
+      | none => some (n, "bad-op")
       | some G =>
-        if G.files.any (·.name = name) then (n, "dup") else
-        (n.mapFolder F (fun G => { G with files := G.files ++ [{ name := name, actual := a, visible := v, deleted := d }] }), "ok")
-    | _, _, _ => (n, "bad-op")
-  | ["dump"] => (n, dump n)
-  | ["wf"] => (n, showBool n.wf)
+        if G.files.any (·.name = name) then some (n, "dup") else
+        some (n.mapFolder F (fun G => { G with files := G.files ++ [{ name := name, actual := a, visible := v, deleted := d }] }), "ok")
+    | _, _, _ => some (n, "bad-op")
+  | _ => none
+
+def step (d : DNode) (ws : List String) : DNode × String :=
+  match setup d.n ws with
+  | some (n', r) => ({ d with n := n' }, r)
+  | none =>
+  match ws with
+  | ["fsdefaults", sd, rd] =>
+    match parseOpt String.toInt? sd, parseOpt String.toInt? rd with
+    | some sd, some rd => ({ d with defScan := sd, defRestore := rd }, "ok")
+    | _, _ => (d, "bad-op")
+  | ["dump"] => (d, dump d.n)
+  | ["noop"] => (d, s!"ok | {dump d.n}")
+  | ["wf"] => (d, showBool d.n.wf)
   | ws =>
-    match parseOp ws with
+    let op? : Option DOp := match parseOp ws with
+      | some op => some (.base op)
+      | none => parseDOp ws
+    match op? with
     | some op =>
-      let (n', r) := n.step op
-      (n', s!"{showResp r} | {dump n'}")
-    | none => (n, "bad-op")
+      if d.restoreAmbiguous op then (d, "ambiguous") else
+      let (d', r) := d.step op
+      (d', s!"{showResp r} | {dump d'.n}")
+    | none => (d, "bad-op")
 
 end DrvC14
 
